@@ -213,7 +213,7 @@ def objectRefFacts (pkg schema : Str) (flatten : Bool) (rules : J5V.Compile.Rule
         (hmiss _ (by simp)) (t := [false, false, false, false, false, false])
         (vs := [.absent, .absent, .absent, .absent, .absent, .absent]) rfl rfl (.inr rfl) hs hp
   runB := by
-    intro sc pfx ek a b C hr _
+    intro sc pfx a b C hr _
     have hu := rulesOk_unpack h rulesSchema_Object schemaOf_ObjectRules
     have hfbR : findBlock wRules [cfOf sObjectField specObjectField (a ++ b)] =
         some (cfOf sObjectField specObjectField (a ++ b), [wRules]) :=
